@@ -250,6 +250,24 @@ class Fn:
         return cd
 
 
+def control_deps_transitive(fn):
+    """block -> set of (branch block, successor) including the branches that guard the guards"""
+    cd = fn.control_deps()
+    out = {}
+    for b in fn.reachable_blocks():
+        seen = set()
+        work = list(cd.get(b, ()))
+        while work:
+            (a, s_) = work.pop()
+            if (a, s_) in seen:
+                continue
+            seen.add((a, s_))
+            if a != b:
+                work.extend(cd.get(a, ()))
+        out[b] = seen
+    return out
+
+
 class Mir:
     def __init__(self, path):
         with open(path) as f:
